@@ -324,3 +324,41 @@ Definition pair_dom (x y : val) : bool := (noeither x && noeither y) || (notup x
    (size_t) the difference wrapped modulo 2^w.  Kept as the record of that behaviour; the model's scalar
    arm is [close] (difference in common_t, which contains the eps type). *)
 Definition close_unsigned (w eps a b : Z) : bool := wrap w (a - b) <? eps.
+
+(* ---------- memory layout ----------
+   An ndarray object is (layout, shape, physical buffer); apply_at(a, idx) reads buffer[layout_offset L shape idx]
+   (Index.ndarray_get).  The ndarray branches above are stated on the LOGICAL row-major element list [d]; the
+   layout-aware loop below is what the C++ executes on two buffer-owning operands of possibly different layouts, and
+   CompareProofs.isequal_arrL_logical / isclose_arrL_logical show that it only depends on the logical elements
+   [logical L s buf] (element k = the element at multi-index ndindex(s)[k]), whatever the two layouts are. *)
+Definition arr_readL (L : layout) (s buf : list Z) (i : Z) : option Z :=
+  let o := layout_offset L s (compute_indices i s) in
+  if o <? 0 then None else nth_error buf (Z.to_nat o).
+Fixpoint arr_loopL (cmp : Z -> Z -> bool) (L : layout) (s d : list Z) (L' : layout) (s' d' : list Z)
+                   (i : Z) (n : nat) (acc : bool) : out :=
+  match n with
+  | O => Ret acc
+  | S n' => if acc then match arr_readL L s d i, arr_readL L' s' d' i with
+                        | Some a, Some b => arr_loopL cmp L s d L' s' d' (i + 1) n' (cmp a b)
+                        | _, _ => UB
+                        end
+            else arr_loopL cmp L s d L' s' d' (i + 1) n' false
+  end.
+Definition isequal_arrL (nd : bool) (L : layout) (s d : list Z) (L' : layout) (s' d' : list Z) : out :=
+  if negb (length s =? length s')%nat then Ret false
+  else match isequal_idx KVec s KVec s' with
+       | Ret true =>
+           if negb (product s =? product s') && negb nd then Abort
+           else arr_loopL Z.eqb L s d L' s' d' 0 (Z.to_nat (product s)) true
+       | Ret false => Ret false
+       | o => o
+       end.
+Definition isclose_arrL (nd : bool) (eps : Z) (L : layout) (s d : list Z) (L' : layout) (s' d' : list Z) : out :=
+  match isequal_idx KVec s KVec s' with
+  | Ret true => arr_loopL (close eps) L s d L' s' d' 0 (Z.to_nat (product s)) true
+  | Ret false => Ret false
+  | o => o
+  end.
+(* the logical (row-major enumeration) elements of an array object *)
+Definition logical (L : layout) (s buf : list Z) : list Z :=
+  map (fun k => match arr_readL L s buf k with Some v => v | None => 0 end) (zrange (prod s)).
